@@ -1,7 +1,10 @@
 package checks
 
 import (
+	"encoding/json"
 	"fmt"
+	"os"
+	"path/filepath"
 	"strings"
 	"testing"
 
@@ -253,6 +256,31 @@ func TestC15(t *testing.T) {
 		h.Exhaustive("every backend call index x {error, panic} of the targeted sessions")
 	}
 
+	// replay tier: saved cases (each once was a violation)
+	if env.Shard == 0 {
+		registerAllReplays()
+		if ents, err := os.ReadDir(filepath.Join("..", "corpus", "c15")); err == nil {
+			for _, e := range ents {
+				rf, err := evid.LoadReplay(filepath.Join("..", "corpus", "c15", e.Name()))
+				if err != nil {
+					t.Errorf("HARNESS-ERROR corpus %s: %v", e.Name(), err)
+					continue
+				}
+				var fc faultCase
+				if err := json.Unmarshal(rf.Case, &fc); err != nil {
+					t.Errorf("HARNESS-ERROR corpus %s: %v", e.Name(), err)
+					continue
+				}
+				h.Danger("faults", "process-died-on-backend-panic", "a backend panic during a request took the server process down (saved case "+e.Name()+")", fc)
+				f := runFaultCase(fc, nil)
+				h.Safe()
+				h.Case(faultHash(fc), true, "saved-corpus")
+				if h.report("faults", f, fc) {
+					return
+				}
+			}
+		}
+	}
 	rapidCases(h, "faults", env.PerShard(env.Pick(3000, 48000)), genFaultSession, func(c faultCase) *fail {
 		if c.FaultAt != 0 {
 			// replay of a single fault
